@@ -1,48 +1,49 @@
 (* C19 — A job group on disk always matches the group in memory.
    Model: Model/JobGroup.v (memory = job records, disk = JSON image, server = script of answers, operations with the
-   write points of the code). Configuration `cur` = the code as it is now (after the repairs bf317fcd: _from_dict
-   restores job_context, and 13320b52: add validates before the append); `old` = before them (historical witnesses).
+   write points of the code; the log `rlog` is what the outside world sees, in order: HTTP requests and whole-file
+   writes). Configuration `cur` = the code as it is now, after the repairs bf317fcd (_from_dict restores job_context),
+   13320b52 (add validates before the append) and 9afb11d4 (_launch_jobs writes once more on leaving its loop, normally
+   or by an exception, iff the jobs differ from what was last written or read); `old` / `before_9afb11d4` = before
+   them (historical `_old_code` witnesses only).
    `Exact m` : the file is exactly the image of memory (save (mem m) = Some (disk m));
    `reload_equiv m` : re-opening the group yields the same observable list (identifier, status if sent, metadata,
-   request body unless successful); `skeleton m` : identifiers and metadata on disk are those of memory;
-   `quiet` : no operation raised the model's ghost flag "a status changed inside a launch loop and no write followed".
-   There is no admissibility condition on the jobs any more (job_context, delta parameters, keywords: all covered).
-
-   The full statement   forall ops sc, reload_equiv (run cur (init sc) ops)   is still FALSE of the faithful model of
-   the current code, because of the open launch-loop finding: `_refuted_rerun_loop` and `_refuted_sequential_wait`
-   are its counterexamples (they replay on the implementation, see known_findings.json). *)
+   request body unless successful); `skeleton m` : identifiers and metadata on disk are those of memory.
+   The statement now holds in FULL: every history, every job, every server script, operations returning or raising;
+   no admissibility condition and no ghost hypothesis. *)
 From PV Require Import Model.JobGroup Proofs.JobGroupP.
 Require Import List ZArith.
 Import ListNotations.
 
-Theorem C19_disk_matches_memory_partial : forall sc ops1 ops2,
-  quiet (init sc) (ops1 ++ ops2) ->
-  Exact (run cur (init sc) ops1) /\ reload_equiv (run cur (init sc) ops1).
-Proof. exact disk_matches_memory_partial. Qed.
-Print Assumptions C19_disk_matches_memory_partial.
+Theorem C19_disk_matches_memory : forall sc ops,
+  Exact (run cur (init sc) ops) /\ reload_equiv (run cur (init sc) ops).
+Proof. exact disk_matches_memory. Qed.
+Print Assumptions C19_disk_matches_memory.
 
-Theorem C19_disk_matches_memory_calm_operations : forall sc ops,
-  Forall calm_op ops -> Exact (run cur (init sc) ops) /\ reload_equiv (run cur (init sc) ops).
-Proof. exact disk_matches_memory_calm. Qed.
-Print Assumptions C19_disk_matches_memory_calm_operations.
-
-Theorem C19_every_operation_preserves : forall ex m o m' out,
-  Forall good (mem m) -> skeleton m -> DiskOk (disk m) -> (ex = true -> Exact m) -> step cur m o = (m', out) ->
-  Forall good (mem m') /\ skeleton m' /\ DiskOk (disk m') /\ (ex = true -> udirty m' = false -> Exact m').
-Proof. exact step_inv. Qed.
+Theorem C19_every_operation_preserves : forall m o m' out,
+  Forall good (mem m) -> Exact m -> step cur m o = (m', out) -> Forall good (mem m') /\ Exact m'.
+Proof. exact step_exact. Qed.
 Print Assumptions C19_every_operation_preserves.
 
-Theorem C19_accepted_ids_survive : forall sc ops,
-  skeleton (run cur (init sc) ops) /\ Exact (fst (step cur (run cur (init sc) ops) OReopen)).
+(* the hypotheses of the step theorem hold initially (and then forever, by the theorem itself) *)
+Theorem C19_initial_state : forall sc, Forall good (mem (init sc)) /\ Exact (init sc).
+Proof. exact init_good. Qed.
+Print Assumptions C19_initial_state.
+
+Theorem C19_accepted_ids_survive : forall sc ops, skeleton (run cur (init sc) ops).
 Proof. exact accepted_ids_survive. Qed.
 Print Assumptions C19_accepted_ids_survive.
 
-Theorem C19_request_same_after_reopen : forall sc ops1 ops2,
-  quiet (init sc) (ops1 ++ ops2) ->
-  let m := run cur (init sc) ops1 in
+Theorem C19_request_same_after_reopen : forall sc ops,
+  let m := run cur (init sc) ops in
   Forall2 (fun j j' => jid j' = jid j /\ (success (jst j) = false -> eff_body j' = eff_body j)) (mem m) (load cur (disk m)).
 Proof. exact request_same_after_reopen. Qed.
 Print Assumptions C19_request_same_after_reopen.
+
+(* leaving the launch loop: one more write iff the image differs; memory, script and outcome untouched *)
+Theorem C19_write_on_exit : forall m o m' o', Forall good (mem m) -> finish cur (m, o) = (m', o') ->
+  mem m' = mem m /\ scr m' = scr m /\ o' = o /\ Exact m'.
+Proof. exact finish_exact. Qed.
+Print Assumptions C19_write_on_exit.
 
 Theorem C19_progress_partitions : forall l,
   progress l = (count cat_unsent l, count cat_success l, count cat_other l, count cat_active l) /\
@@ -95,19 +96,6 @@ Proof.
 Qed.
 Print Assumptions C19_fresh_identifiers_satisfiable.
 
-(* counterexamples to the full statement on the CURRENT code (open finding launch-loop-status-change-not-written) *)
-Theorem C19_disk_matches_memory_refuted_rerun_loop :
-  exists ops sc, snd (step cur (run cur (init sc) (removelast ops)) (last ops OReopen)) = Returned /\
-                 ~ reload_equiv (run cur (init sc) ops).
-Proof. exact disk_matches_memory_refuted_rerun_loop. Qed.
-Print Assumptions C19_disk_matches_memory_refuted_rerun_loop.
-
-Theorem C19_disk_matches_memory_refuted_sequential_wait :
-  exists ops sc, snd (step cur (run cur (init sc) (removelast ops)) (last ops OReopen)) = Raised E_HTTP /\
-                 ~ reload_equiv (run cur (init sc) ops).
-Proof. exact disk_matches_memory_refuted_sequential_wait. Qed.
-Print Assumptions C19_disk_matches_memory_refuted_sequential_wait.
-
 (* HISTORICAL counterexamples, about the code before bf317fcd / 13320b52 (configuration `old`) *)
 Theorem C19_disk_matches_memory_refuted_context_old_code : exists ops sc, ~ reload_equiv_old (run old (init sc) ops).
 Proof. exact disk_matches_memory_refuted_context_old_code. Qed.
@@ -133,9 +121,36 @@ Theorem C19_repaired_witnesses :
 Proof. exact repaired_witnesses. Qed.
 Print Assumptions C19_repaired_witnesses.
 
-(* the hypothesis of the partial theorems is satisfiable (a 10-operation history with a job_context job, a keyword
-   fill, a refusal, a re-run, a re-open and a sequential launch) *)
-Theorem C19_hypotheses_satisfiable :
-  exists ops sc, quiet (init sc) ops /\ length (mem (run cur (init sc) ops)) = 2%nat.
-Proof. eexists _, _. exact hypotheses_satisfiable. Qed.
-Print Assumptions C19_hypotheses_satisfiable.
+(* HISTORICAL counterexamples, about the code before 9afb11d4 *)
+Theorem C19_disk_matches_memory_refuted_rerun_loop_old_code :
+  exists ops sc, snd (step before_9afb11d4 (run before_9afb11d4 (init sc) (removelast ops)) (last ops OReopen)) = Returned /\
+                 ~ reload_equiv_b (run before_9afb11d4 (init sc) ops).
+Proof. exact disk_matches_memory_refuted_rerun_loop_old_code. Qed.
+Print Assumptions C19_disk_matches_memory_refuted_rerun_loop_old_code.
+
+Theorem C19_disk_matches_memory_refuted_sequential_wait_old_code :
+  exists ops sc, snd (step before_9afb11d4 (run before_9afb11d4 (init sc) (removelast ops)) (last ops OReopen)) = Raised E_HTTP /\
+                 ~ reload_equiv_b (run before_9afb11d4 (init sc) ops).
+Proof. exact disk_matches_memory_refuted_sequential_wait_old_code. Qed.
+Print Assumptions C19_disk_matches_memory_refuted_sequential_wait_old_code.
+
+(* ... the same two histories on the current code: same outcomes, and exactly one more write than before the repair;
+   a classic run writes exactly as often as before (6 writes: 2 adds, 2 launches, 2 status changes) *)
+Theorem C19_repaired_launch_witnesses :
+  let h1 := [OAdd (sp 1) true None false; ORerun false false] in
+  let s1 := [AOk 10%Z WAITING; AOk 11%Z WAITING; AOk 12%Z RUNNING] in
+  let h2 := [OAdd (sp 1) false None false; ORun true] in
+  let s2 := [AOk 10%Z WAITING; AOk 11%Z RUNNING] in
+  snd (step cur (run cur (init s1) (removelast h1)) (last h1 OReopen)) = Returned /\
+  snd (step cur (run cur (init s2) (removelast h2)) (last h2 OReopen)) = Raised E_HTTP /\
+  writes (run cur (init s1) h1) = S (writes (run before_9afb11d4 (init s1) h1)) /\
+  writes (run cur (init s2) h2) = S (writes (run before_9afb11d4 (init s2) h2)).
+Proof. exact repaired_launch_witnesses. Qed.
+Print Assumptions C19_repaired_launch_witnesses.
+
+Theorem C19_classic_run_same_writes :
+  let h := [OAdd (sp 1) false None false; OAdd (sp 2) false None false; ORun false; OProgress] in
+  let s := [AOk 10%Z WAITING; AOk 11%Z WAITING; AOk 0%Z SUCCESS; AOk 0%Z SUCCESS] in
+  writes (run cur (init s) h) = writes (run before_9afb11d4 (init s) h) /\ writes (run cur (init s) h) = 6%nat.
+Proof. exact classic_run_same_writes. Qed.
+Print Assumptions C19_classic_run_same_writes.
